@@ -22,7 +22,7 @@ Definition code_fixed_F04 := true.
 (* finding C03-N1 (a Send whose Write failed part-way leaves the connection
    usable): false = the code as it is; the integrator flips this when
    proposed_fixes/C03-N1.diff lands *)
-Definition code_fixed_C03N1 := false.
+Definition code_fixed_C03N1 := true.
 
 Inductive dres := DVal (k : nat) | DErr.
 Inductive pentry := PE (cs : list chunk) (reg : bool) (d : dres).
